@@ -88,7 +88,7 @@ PROPS["C05"] = {
              "Each document is encoded as JSON and as block YAML (harness emitter, verified to decode back to the same tree) and put "
              "through three admission routes: ReadSpec, a cache over a directory holding only that file (Refresh error, GetErrors key, "
              "devices listed) and WriteSpec of the decoded struct when representable. Expected verdict is known by construction. "
-             "The table unit enumerates every defect kind at every position on one fixed three-device document. Permission defects are placed on nodes of every type (c, b, u, p, untyped); RDT class id defects at the first, a middle and the last position. "
+             "The table unit enumerates every defect kind at every position on one fixed three-device document. Permission defects are placed on nodes of every type (c, b, u, p, untyped); RDT class id defects at the first, a middle and the last position. Half of the defective device-node / hook / mount elements additionally get drawn valid optional members they do not have yet (hostPath, type+major, minor, fileMode, uid, gid, permissions; args, env, timeout; options, type): one defect rejects whatever else the element carries. "
              "Non-trivial iff the "
              "document has >= 2 devices and the defect (or, for valid documents, the version-gating feature) is in a device that is not "
              "last; distinct = distinct document trees."),
@@ -104,7 +104,7 @@ PROPS["C05"] = {
         "technique": "property-based testing: valid-by-construction generator + single-defect mutation, oracle by construction, differential over encodings and admission routes",
     },
     "health": {"quick": {"valid": 500, "defect": 2000, "defect-in-non-last-device": 300, "where:spec": 200, "where:device-first": 200,
-                         "where:device-middle": 30, "where:device-last": 200}},
+                         "where:device-middle": 30, "where:device-last": 200, "defective-element-with-valid-optional-members": 800}},
     "units": [
         {"name": "regress", "mode": "plain", "run": "TestC05Regress"},
         {"name": "table", "mode": "plain", "run": "TestC05Table", "shards": 4},
@@ -116,7 +116,7 @@ PROPS["C15"] = {
     "level": "exploration",
     "rule": ("(initial map, plugin, device id, device list) drawn by rapid: maps nil / empty / with foreign keys, CDI keys and the very "
              "key about to be generated; plugin and id strings with every character class at first / middle / last position, combined "
-             "lengths concentrated on 60..66, '/' in the id, non-ASCII, empty; device lists of valid names and near misses. Exhaustive "
+             "lengths concentrated on 60..66, '/' in the id, non-ASCII, lone bytes >= 0x80 that are not UTF-8 (Latin-1 letters among them), empty; device lists of valid names and near misses. Exhaustive "
              "part: every (plugin, id) of combined length <= 4 over the alphabet {a Z 0 _ - . / e-acute}, with and without the key already "
              "used, and every total length 1..70 at every split. Oracle: UpdateAnnotations either fails and the map (argument and result) "
              "equals the snapshot, or adds exactly one key that has the CDI prefix, is a legal k8s annotation key (model.K8sAnnotationKey), "
@@ -136,7 +136,7 @@ PROPS["C15"] = {
         "note": "trusted: model/names.go (k8s key and qualified-name recognisers)",
         "technique": "property-based testing: rapid + bounded exhaustive enumeration, round-trip (update then parse) and reference-model oracle",
     },
-    "health": {"quick": {"name-valid": 2000, "name-invalid": 2000, "key-already-used": 500, "init-nil": 1000, "name-len-63": 200, "name-len-64": 200, "slash-in-id": 500, "decorated:leading": 1000, "decorated:trailing": 1000, "decorated:after-comma": 1000}},
+    "health": {"quick": {"name-valid": 2000, "name-invalid": 2000, "key-already-used": 500, "init-nil": 1000, "name-len-63": 200, "name-len-64": 200, "slash-in-id": 500, "decorated:leading": 1000, "decorated:trailing": 1000, "decorated:after-comma": 1000, "valid-but-for-a-non-utf8-byte-at-an-end": 1000}},
     "units": [
         {"name": "regress", "mode": "plain", "run": "TestC15Regress"},
         {"name": "exhaustive", "mode": "plain", "run": "TestC15Exhaustive", "shards": 4},
@@ -259,7 +259,7 @@ PROPS["C02"] = {
              "present), applies it with ContainerEdits.Apply to a copy, and the normalised JSON image must equal the image after "
              "InjectDevices on another copy; and the result must contain no token of a non-requested device, a shadowed file, an ignored "
              "or uninvolved file; the same cache is then used for the same request again and for a one-device request. The cache is a manual one, or "
-             "(one case in four) an auto-refresh cache created during a descriptor shortage, which has no watcher and rescans on every lookup. "
+             "(one case in four) an auto-refresh cache created during a descriptor shortage, which has no watcher and rescans on every lookup. In one case in three the cache has first answered a refused request: the same names with one unresolvable name at a drawn position. "
              "Devices and Spec files also share container paths, variable names (some a prefix of another, some values with empty lines) and node paths, so that later edits replace earlier ones and positions matter. "
              "Non-trivial iff devices of one file are interleaved with a device of another file in the request, or a "
              "requested name is also defined in a shadowed (lower-priority) file; distinct = distinct (layout, request, OCI spec)."),
@@ -271,7 +271,7 @@ PROPS["C02"] = {
         "note": "trusted: layout.Resolve for which file a name resolves to; ContainerEdits.Apply as the reference applier (checked separately by C03)",
         "technique": "property-based testing: differential oracle (independently built combined edit list), marker-based non-interference check",
     },
-    "health": {"quick": {"devices-of-one-file-interleaved-with-another": 300, "requested-device-also-defined-in-shadowed-file": 1000, "files-2": 1000, "files-3": 300, "cache-without-watcher": 1000}},
+    "health": {"quick": {"devices-of-one-file-interleaved-with-another": 300, "requested-device-also-defined-in-shadowed-file": 1000, "files-2": 1000, "files-3": 300, "cache-without-watcher": 1000, "refused-request-before": 1500}},
     "units": [
         {"name": "rapid", "mode": "rapid", "run": "TestC02Rapid", "checks": {"quick": 24000, "thorough": 480000}},
     ],
